@@ -54,6 +54,8 @@ pub enum Case {
 pub const ALPHA12: [u8; 12] = [0x00, 0x01, 0x02, 0x03, 0x04, 0x0e, 0x16, 0x17, 0x18, 0x19, 0xff, 0x05];
 pub const ALPHA8: [u8; 8] = [0x00, 0x01, 0x03, 0x08, 0xfe, 0xff, 0x80, 0xfc];
 pub const ALPHA6: [u8; 6] = [0x00, 0x01, 0x03, 0x17, 0xff, 0x04];
+/// characters that matter to the built-in statement recognisers
+pub const ALPHA_SQL: [u8; 7] = [b'`', b';', b' ', b'a', b'\t', b'@', 0xc3];
 
 /// the k-th string over `alpha` in length-then-lexicographic order, lengths 0..=maxlen
 fn kth(alpha: &[u8], maxlen: usize, mut k: u64) -> Option<Vec<u8>> {
@@ -88,9 +90,12 @@ pub fn family_size(f: u8) -> u64 {
         0 | 1 => total(12, 4),
         2 | 3 => total(6, 5),
         4..=7 => total(8, 4),
+        8..=11 => total(7, 4),
         _ => 0,
     }
 }
+
+const SQL_PREFIXES: [&[u8]; 4] = [b"USE ", b"use ", b"SELECT @@", b"USE"];
 
 const EXEC_NPARAMS: [usize; 4] = [0, 1, 2, 9];
 
@@ -212,7 +217,12 @@ fn gen_valid_cmds(g: &mut G<'_>, stmts: &mut Vec<(u32, usize)>) -> Vec<Vec<u8>> 
     let n = g.usize_in(1, 6);
     let mut out = Vec::new();
     for _ in 0..n {
-        match g.weighted(&[4, 3, 5, 2, 2, 1, 1, 1]) {
+        match g.weighted(&[4, 3, 5, 2, 2, 1, 1, 1, 3]) {
+            8 => {
+                // the statements the library answers itself
+                let q = if g.coin() { gen_use_stmt(g).0 } else { format!("{}{}", g.pick(&["SELECT @@", "select @@"]), g.pick(&["max_allowed_packet", "version_comment limit 1", "", "x"])) };
+                out.push(com_simple(COM_QUERY, q.as_bytes()));
+            }
             0 => out.push(com_simple(COM_QUERY, gen_query_text(g).as_bytes())),
             1 => {
                 let np = gen_nparams(g).min(20);
@@ -304,10 +314,10 @@ impl Prop for C20 {
         "C20"
     }
     fn rule(&self) -> String {
-        "cases = (1) enumerated, exhaustive: every packet payload of length 0-4 over a 12-symbol alphabet (all command bytes, 0x00, 0xff, an unknown command) after a valid handshake and as the handshake response; every raw (unframed) stream of length <= 5 over a 6-symbol alphabet after the handshake and from the start; every COM_STMT_EXECUTE parameter-block body of length 0-4 over an 8-symbol alphabet for statements declaring 0, 1, 2 and 9 parameters; (2) generated: grammar-aware mutations of valid conversations (truncate / extend / delete / insert at any offset of any command or of the handshake response, set bytes to boundary values, flip bits, replace the command byte, declared-vs-sent parameter count mismatches, unknown type codes, executes without bound types, every request sequence id 0-255, header length fields larger or smaller than the payload) and random byte streams, under 1-byte to whole-stream read chunkings; (3) enumerated multi-fragment (>= 2^24-1 byte) requests with in-order, out-of-order, repeated and wrapping fragment sequence ids. Oracle: run_on returns Ok or Err, never panics, never keeps reading after end of stream (read budget), and everything it wrote is a sequence of well-formed packets. Known panic sites are matched by (file, source line text, message) signature and reported as KNOWN-FINDING; any other signature is a violation. Non-trivial = the stream differs from every valid conversation (all enumerated and mutated cases) and is at least 1 byte long.".into()
+        "cases = (1) enumerated, exhaustive: every packet payload of length 0-4 over a 12-symbol alphabet (all command bytes, 0x00, 0xff, an unknown command) after a valid handshake and as the handshake response; every raw (unframed) stream of length <= 5 over a 6-symbol alphabet after the handshake and from the start; every COM_STMT_EXECUTE parameter-block body of length 0-4 over an 8-symbol alphabet for statements declaring 0, 1, 2 and 9 parameters; every COM_QUERY consisting of a built-in prefix (`USE `, `use `, `SELECT @@`, `USE`) and a tail of length 0-4 over {back-quote, ';', blank, 'a', tab, '@', a broken UTF-8 lead byte}; (2) generated: grammar-aware mutations of valid conversations (truncate / extend / delete / insert at any offset of any command or of the handshake response, set bytes to boundary values, flip bits, replace the command byte, declared-vs-sent parameter count mismatches, unknown type codes, executes without bound types, every request sequence id 0-255, header length fields larger or smaller than the payload) and random byte streams, under 1-byte to whole-stream read chunkings; (3) enumerated multi-fragment (>= 2^24-1 byte) requests with in-order, out-of-order, repeated and wrapping fragment sequence ids. Oracle: run_on returns Ok or Err, never panics, never keeps reading after end of stream (read budget), and everything it wrote is a sequence of well-formed packets. Known panic sites are matched by (file, source line text, message) signature and reported as KNOWN-FINDING; any other signature is a violation. Non-trivial = the stream differs from every valid conversation (all enumerated and mutated cases) and is at least 1 byte long.".into()
     }
     fn exhaustive_note(&self, _tier: Tier) -> Option<String> {
-        Some("payloads of length <= 4 over 12 symbols (as command and as handshake), raw streams of length <= 5 over 6 symbols (after and instead of the handshake), execute parameter-block bodies of length <= 4 over 8 symbols for 0/1/2/9 declared parameters".into())
+        Some("payloads of length <= 4 over 12 symbols (as command and as handshake), raw streams of length <= 5 over 6 symbols (after and instead of the handshake), execute parameter-block bodies of length <= 4 over 8 symbols for 0/1/2/9 declared parameters, built-in query prefixes with every tail of length <= 4 over 7 symbols".into())
     }
     fn cases(&self, tier: Tier) -> u64 {
         tier.pick(1000000, 8000000)
@@ -388,7 +398,7 @@ impl Prop for C20 {
     }
     fn fixed(&self, tier: Tier) -> Vec<Case> {
         let mut v = Vec::new();
-        for f in 0..8u8 {
+        for f in 0..12u8 {
             let n = family_size(f);
             let step = 512;
             let mut i = 0;
